@@ -94,7 +94,20 @@ def _fuzz(tier):
     return [{"engine": "fuzzopen", "shards": 2, "args": {"images": 300000, "threads": 8}}]
 
 
+REPO_BIN_DIR = "/verif/harness/target/repo-bin"
+BUILD_CLI = {"cmd": ["cargo", "build", "--offline", "--manifest-path", "/repo/Cargo.toml", "--bin", "feox-migrate"], "env": {"CARGO_TARGET_DIR": REPO_BIN_DIR}}
+
+
+def _migrate(tier):
+    args = {"cli": REPO_BIN_DIR + "/debug/feox-migrate", "threads": 12}
+    if tier == "quick":
+        return [{"engine": "migrate", "pre": [BUILD_CLI], "args": dict(args, sources=240)}]
+    return [{"engine": "migrate", "pre": [BUILD_CLI], "shards": 2, "args": dict(args, sources=6000, threads=8)}]
+
+
 PLAN = {
+    "C15": {"level": "exploration", "engines": _migrate, "min_nontrivial": 30,
+            "assumptions": ["expected contents of a legacy source = recovery by the independent codec with TTL filtering off, cross-checked against the real store opened on a copy of the source", "no other process touches source or destination during migration (outside the property)", "the feox-migrate binary is rebuilt from /repo (dev profile, default features) for the CLI sample"]},
     "C17": {"level": "exploration", "engines": _fuzz, "min_nontrivial": 100,
             "assumptions": ["images are generated randomly and structure-aware (forgeries with recomputed tokens/checksums), not coverage-guided; device sizes up to 128 blocks", "panics are detected with catch_unwind plus a process-wide panic hook (background threads), aborts and hangs by the parent process (60 s without progress)"]},
     "C05": {"level": "exploration", "engines": _space, "min_nontrivial": 100,
